@@ -628,8 +628,9 @@ func runLoopCase(ci interface{}, rec *pbt.Rec) *pbt.Failure {
 		}
 	}
 	// settle: feed everything back, let two blocks pass, compare both sides
-	feed()
-	for k := 0; k < 2; k++ {
+	// (a validator whose re-bonding was still queued joins at the next EndBlock; its orchestrator catches up then)
+	for k := 0; k < 3; k++ {
+		feed()
 		if err := h.End(); err != nil {
 			return nil
 		}
